@@ -78,7 +78,14 @@ func (w *realWorker) Work(ctx context.Context, unit stage.Unit, startBlock uint6
 	env.jobs = append(env.jobs, fmt.Sprintf("%d/%d", unit.Stage, unit.Segment))
 	env.mu.Unlock()
 	cmd := w.inner.Work(context.WithValue(ctx, jobKey{}, jobIdx), unit, startBlock, moduleNames, upstream)
-	return func() loop.Msg {
+	return func() (msg loop.Msg) {
+		// a panic inside the real worker (it runs in a goroutine of the real event loop) would kill the harness: it is
+		// turned into a failed job, the request fails and the oracle reports it with the scenario as replay
+		defer func() {
+			if r := recover(); r != nil {
+				msg = work.MsgJobFailed{Unit: unit, Error: fmt.Errorf("PANIC in RemoteWorker.Work: %v", r)}
+			}
+		}()
 		m := cmd()
 		if s, ok := m.(work.MsgJobSucceeded); ok {
 			s.Worker = w
